@@ -294,6 +294,16 @@ def restore_uuid4():
     _uuid.uuid4 = _ORIG_UUID4
 
 
+def shutdown():
+    """Leave the process as we found it: close the last world, uninstall the virtual loop, restore uuid4."""
+    global _LAST
+    if _LAST is not None:
+        _LAST.close()
+        _LAST = None
+    vloop.uninstall()
+    restore_uuid4()
+
+
 # ---- message builders (library serializer; the content oracle decodes independently of the object that was sent) ----
 _SER = UDPMessageSerializer()
 _EAGER = Settings()
